@@ -34,6 +34,9 @@ def required_cells(tier):
     req["polygon:exhaustive-perms"] = 200
     req["polygon:duplicates"] = 100
     req["polygon:negated-then-moved"] = 100
+    req["polygon:receiver-is-a-negation"] = 50
+    req["history:second-body-from-the-same-face-objects-moved-away"] = 30 if q else 600
+    req["history:rebuilt-from-its-own-faces-moved-into-place"] = 30 if q else 600
     req["polyhedron"] = 300 if q else 6000
     req["polyhedron:exhaustive-orientations"] = 100
     req["fed-back:PG"] = 30 if q else 600
@@ -63,6 +66,7 @@ def cases(rng, budget, widx, nworkers, tier):
                     c_ = {"k": "PG", "d": d, "order": p}
                     if rng.random() < 0.3:
                         c_["hv"] = [rng.randint(-6, 6) for _ in range(3)]
+                        c_["negrecv"] = rng.choice((0, 0, 1, 2))       # the polygon that is moved is itself -p / -(-p)
                     yield c_
         elif r < 0.7:
             d = gen.rand_polyhedron(rng, small=rng.random() < 0.4)
@@ -78,7 +82,16 @@ def cases(rng, budget, widx, nworkers, tier):
                 for _ in range(3):
                     fo = list(range(nf))
                     rng.shuffle(fo)
-                    yield {"k": "PH", "d": d, "forder": fo, "flips": rng.getrandbits(nf), "rots": [rng.randrange(6) for _ in range(nf)]}
+                    c_ = {"k": "PH", "d": d, "forder": fo, "flips": rng.getrandbits(nf), "rots": [rng.randrange(6) for _ in range(nf)]}
+                    hr = rng.random()
+                    if hr < 0.15:
+                        c_["h9"] = "second-body-from-the-same-face-objects-moved-away"
+                    elif hr < 0.3:
+                        c_["h9"] = "rebuilt-from-its-own-faces-moved-into-place"
+                    if "h9" in c_:
+                        c_["w"] = [rng.randint(-6, 6) or 1 for _ in range(3)]
+                        c_["fo2"] = rng.sample(range(nf), nf)
+                    yield c_
         elif r < 0.86:
             # two prisms stacked on a common face: the upper one is built with the face OBJECT taken from the lower one
             base = gen.rand_polygon(rng, 3, 6, 3)
@@ -92,6 +105,18 @@ def cases(rng, budget, widx, nworkers, tier):
             ka, kb = rng.choice((("PG", "PG"), ("PG", "PH"), ("PH", "PH"), ("PH", "PH"), ("PL", "PH")))
             (a, b), label = gen.gen_pair(rng, ka, kb, small=True)
             yield {"k": "FB", "a": a, "b": b, "ls": rng.getrandbits(30), "ss": rng.getrandbits(30)}
+
+
+def _faces(G, faces, forder, flips, rots):
+    polys = []
+    for j, fi in enumerate(forder):
+        f = list(faces[fi])
+        r = rots[j] % len(f)
+        f = f[r:] + f[:r]
+        if (flips >> j) & 1:
+            f.reverse()
+        polys.append(G.ConvexPolygon(tuple(G.Point(*[float(c) for c in v]) for v in f)))
+    return polys
 
 
 def _check_polygon(G, mu, pg, want_pts, key, tol=1e-7):
@@ -198,6 +223,9 @@ def judge(case):
             # (and what -p returns) must be that of the moved polygon
             mu.cell("polygon:negated-then-moved")
             try:
+                for _n in range(case.get("negrecv", 0)):
+                    pg = -pg
+                    mu.cell("polygon:receiver-is-a-negation")
                 q0 = -pg
                 hash(pg), hash(q0), pg == q0
                 pg.move(G.Vector(*[float(c) for c in hv]))
@@ -211,7 +239,51 @@ def judge(case):
         mu.cell("polyhedron", "body:" + gen.family_of(d))
         if case.get("exh"):
             mu.cell("polyhedron:exhaustive-orientations")
-        ph, exc, _ = M.call(lambda: build_polyhedron(G, d[2], case["forder"], case["flips"], case["rots"], float), pure=False)
+        h9 = case.get("h9")
+        if h9 == "second-body-from-the-same-face-objects-moved-away":
+            # the caller builds two polyhedra from the same face objects (in two orders) and moves the second away:
+            # the first one, and the caller's own polygons, must stay what and where they are
+            mu.cell("history:" + h9)
+            polys = _faces(G, d[2], case["forder"], case["flips"], case["rots"])
+            before = [M.snap(pg) for pg in polys]
+            ph, exc, _ = M.call(lambda: G.ConvexPolyhedron(tuple(polys)), pure=False)
+            if exc is None:
+                try:
+                    ph2 = G.ConvexPolyhedron(tuple(polys[i] for i in case["fo2"]))
+                    ph2.move(G.Vector(*[float(c) for c in case["w"]]))
+                except Exception as e:
+                    mu.fail("PH:history-raises-" + type(e).__name__, "second body from the same faces / its move raised %r" % e)
+                    return mu.result()
+                for b4, pg in zip(before, polys):
+                    df = M.snap_diff(b4, M.snap(pg))
+                    if df:
+                        mu.fail("PH:callers-faces-changed", "a polygon handed to ConvexPolyhedron was changed by moving the polyhedron: %s" % (df,))
+                        break
+        elif h9 == "rebuilt-from-its-own-faces-moved-into-place":
+            # a body is built elsewhere; copies of ITS faces (as the polyhedron oriented them) are moved into place one by
+            # one and a new body is built from them
+            import copy as _copy
+            from ..desc import translate
+            mu.cell("history:" + h9)
+            w = tuple(F(c) for c in case["w"])
+            d0 = translate(d, K.mul(w, -1))
+            try:
+                ph0 = build_polyhedron(G, d0[2], case["forder"], case["flips"], case["rots"], float)
+                faces = [_copy.deepcopy(f) for f in ph0.convex_polygons]
+                for f in faces:
+                    f.move(G.Vector(*[float(c) for c in w]))
+            except Exception as e:
+                mu.fail("PH:history-raises-" + type(e).__name__, "building elsewhere / moving the faces raised %r" % e)
+                return mu.result()
+            for f in faces:
+                bad = M.invariants(f)
+                if bad:
+                    mu.fail("PH:moved-face-invariant", "a face copied from a polyhedron and moved: %s" % bad[0])
+                    return mu.result()
+            faces = [faces[i] for i in case["fo2"]]
+            ph, exc, _ = M.call(lambda: G.ConvexPolyhedron(tuple(faces)), pure=False)
+        else:
+            ph, exc, _ = M.call(lambda: build_polyhedron(G, d[2], case["forder"], case["flips"], case["rots"], float), pure=False)
         if exc is not None:
             mu.fail("PH:ctor-raises-" + M.classify_exc(exc), "ConvexPolyhedron(valid closed faces) raised %s: %s" % (type(exc).__name__, exc))
             return mu.result()
